@@ -12,7 +12,7 @@ import time
 import hypothesis
 from hypothesis import HealthCheck, Phase, given, settings
 
-from .common import Result, chash, jsonable, load_known
+from .common import Result, SetupRejected, chash, jsonable, load_known
 
 
 def _settings(n, shrink=False):
@@ -39,7 +39,10 @@ def campaign(strategy, check, n, seed, result: Result, prop: str, to_case=None, 
     @_settings(n)
     @given(strategy)
     def run(value):
-        out = check(value)
+        try:
+            out = check(value)
+        except SetupRejected:
+            out = {"violations": [], "labels": ["setup-rejected"], "nontrivial": False}
         case = to_case(value)
         result.case(key=out.get("key", None) or chash(jsonable(case)), nontrivial=out.get("nontrivial", False),
                     labels=out.get("labels", ()), sample=case if out.get("nontrivial") else None)
@@ -64,7 +67,10 @@ def campaign(strategy, check, n, seed, result: Result, prop: str, to_case=None, 
             def shr(value):
                 if time.time() - t0 > shrink_budget_s:
                     return
-                out = check(value)
+                try:
+                    out = check(value)
+                except SetupRejected:
+                    return
                 for b, w in out.get("violations", []):
                     if b == bucket:
                         best[0], best[1] = w, to_case(value)
